@@ -68,6 +68,7 @@ def reach_under(prog, root, assume, targets, stop_at=None):
 
 
 def P1(ctx):
+    """Deny-list (with positive control): no catch_unwind / resume_unwind / process::abort|exit anywhere in the crate."""
     prog = ctx.prog
     pred = lambda k: k in deny.P1_DENY
     if not deny.check_controls(ctx, "P1", pred, ["p1_catch_unwind", "p1_resume_unwind", "p1_abort", "p1_exit"]):
@@ -82,6 +83,7 @@ def P1(ctx):
 
 
 def P2(ctx):
+    """Every Drop impl tolerates a dead execution: no path to an accessor unwrapping `active` when is_active()=false and panicking()=true."""
     prog = ctx.prog
     acc = unwrapping_accessors(prog)
     ctx.floor("P2-accessors", len(acc), 6, "active_id, active, active_mut, active2_mut, split_active, seq_cst_fence")
@@ -136,6 +138,7 @@ def P2_wrapper(ctx):
 
 
 def P3(ctx):
+    """Loom's own diagnostics and the branch-capacity assertion are not raised from destructors while panicking."""
     prog = ctx.prog
     fire = {"rt::location::PanicBuilder::fire"}
     n = 0
@@ -190,6 +193,7 @@ def P3(ctx):
 
 
 def P4(ctx):
+    """No value owning user closures is dropped by the cleanup reached from the unwind edge of STATE.set in Scheduler::tick."""
     prog = ctx.prog
     k = "rt::scheduler::Scheduler::tick"
     fn = need_fn(ctx, "P4", k)
@@ -227,6 +231,7 @@ ALLOWED_STATICS = ("rt::execution::Id::new::NEXT_ID", "rt::scheduler::STATE")
 
 
 def P5(ctx):
+    """Process-level mutable state is exactly the inventoried statics (NEXT_ID, scoped STATE)."""
     prog = ctx.prog
     n = 0
     for s in prog.statics:
